@@ -337,15 +337,16 @@ def _validate_chunk(work, k, lines):
             continue
         if t not in dead:
             raise vlib.Broken("trace %s neither accepted nor rejected by TLC" % t)
-        rej = dict(dead[t][0])
-        rej["alts"] = dead[t]       # the same line reached with different attributions of ambiguous receipt lookups
-        # deviations recorded on the way (any branch) are reported as well
-        seen_n = set()
-        for (tt, n_), alts in sorted(devs.items()):
-            if tt == t and n_ < rej["n"] and n_ not in seen_n:
-                seen_n.add(n_)
-                x = dict(alts[0])
-                x["alts"] = alts
+        # several branches may die at the same deepest line; prefer those that needed the fewest re-synchronisations
+        fewest = min(len(d.get("devs", [])) for d in dead[t])
+        alts = [d for d in dead[t] if len(d.get("devs", [])) == fewest]
+        rej = dict(alts[0])
+        rej["alts"] = alts          # the same line reached with different attributions of ambiguous receipt lookups
+        for n_ in alts[0].get("devs", []):
+            dalts = devs.get((t, n_), [])
+            if dalts:
+                x = dict(dalts[0])
+                x["alts"] = dalts
                 rejs.append(x)
         rejs.append(rej)
     return rejs, r
@@ -475,6 +476,8 @@ def signature(rej, line, prev):
         return "reobs/request-overlaps"
     if ev == "R_Receipt" and rs is not None and rs.get("st") == "head":
         return "reobs/receipt-before-head"
+    if ev == "R_BlockTime" and rs is None:
+        return "reobs/continued-after-unusable-receipt"
     if ev == "L_Insert":
         return "intake/pending-differs"
     if ev == "End":
